@@ -189,13 +189,256 @@ def build():
                      'implies(tx == INTX, tx_db == self._database)',
                      # error identification: the augmented exception names the failing statement
                      "has_exc_attr('last_sql_statement')",
-                     "implies(failed, exc_attr('last_sql_statement') == (failed_stmt[0], failed_stmt[1]))"],
+                     "implies(failed, exc_attr('last_sql_statement', failed_stmt) == (failed_stmt[0], failed_stmt[1]))"],
         note='capture rendering abstracted to render_sql(); see C14')
 
+    add_run_contracts(w)
     fam = Family('contracts.execution', w)
+    from pyvc.runner import Syntactic
+    fam.syntactic.append(Syntactic('evolve_lock_receivers', ['C17'], syn_lock_receivers,
+                                   "_on_evolving is connected to exactly 'evolving' and _on_evolving_done to exactly "
+                                   "'evolved' and 'evolving_failed' (decorator arguments), so the lock is balanced "
+                                   'whenever evolving is answered by exactly one of them'))
     fam.replay['SQLExecutor.__exit__'] = replay_executor_exit
     fam.replay['SQLExecutor.new_transaction'] = replay_new_transaction
     return fam
+
+
+def add_run_contracts(w):
+    """Evolver.evolve and the task execute methods: run-lifecycle monitor (C07 clause 4, C17)."""
+    ROW = K.Ref('EvolutionRow')
+    w.cls('EvolutionRow', {'version': K.Opt(K.Ref('Version'))})
+    w.cls('Version', {})
+    w.cls('DatabaseState', {})
+    w.cls('TaskClass', {})
+    w.cls('BaseEvolutionTask', {'new_evolutions': K.Seq(ROW), 'sql': K.Seq(SQL), 'evolution_required': K.Bool,
+                                'evolver': K.Ref('Evolver')}, module=EVBASE)
+    w.cls('EvolveAppTask', {'app_label': K.Str, 'new_model_names': K.Atom('Names'), '_new_models_sql': K.Seq(SQL),
+                            '_new_models_deferred_sql': K.Seq(SQL)}, bases=['BaseEvolutionTask'], module=TASK)
+    w.cls('Evolver', {'evolved': K.Bool, '_tasks_by_class': K.Map(K.Ref('TaskClass'), K.Seq(K.Ref('BaseEvolutionTask'))),
+                      'database_state': K.Ref('DatabaseState'), 'database_name': K.Str,
+                      'version': K.Opt(K.Ref('Version')), 'project_sig': K.Atom('ProjectSig'),
+                      '_tasks_prepared': K.Bool}, module=EVOLVER)
+    w.ghost_var('life', K.Int)                 # run lifecycle monitor
+    w.ghost_var('saved', K.Int)                # number of Version.save calls that succeeded
+    w.ghost_var('recorded', K.Seq(ROW))        # Evolution rows written by bulk_create
+    w.ghost_var('exec_failed', K.Bool)         # some execute_tasks raised
+    w.ghost_var('exec_after_save', K.Bool)     # tasks executed after the signature was saved
+    # signal stubs: receivers are assumed not to raise (outside the property's fault model)
+    w.stub('sig.evolving', params={'sender': K.Ref('Evolver')},
+           effects=['life = ite(life == IDLE, EVOLVING, LERROR)'],
+           note='signals.evolving.send: receivers assumed not to raise')
+    w.stub('sig.evolved', params={'sender': K.Ref('Evolver')},
+           effects=['life = ite(life == EVOLVING and saved > 0, DONE, LERROR)'],
+           note='signals.evolved.send')
+    w.stub('sig.evolving_failed', params={'sender': K.Ref('Evolver'), 'exception': None},
+           effects=['life = ite(life == EVOLVING, FAILED, LERROR)'], note='signals.evolving_failed.send')
+    w.externals.update({'evolving.send': 'sig.evolving', 'evolved.send': 'sig.evolved',
+                        'evolving_failed.send': 'sig.evolving_failed'})
+    w.stub('TaskClass.execute_tasks', params={'self': K.Ref('TaskClass'), 'evolver': K.Ref('Evolver'),
+                                              'tasks': K.Seq(K.Ref('BaseEvolutionTask'))},
+           may_raise=['Exception'],
+           effects=['life = ite(life == EVOLVING, life, LERROR)', 'exec_after_save = exec_after_save or saved > 0'],
+           effects_exc=['life = ite(life == EVOLVING, life, LERROR)', 'exec_failed = True',
+                        'exec_after_save = exec_after_save or saved > 0'],
+           note='class-level execution of a task list (EvolveAppTask/PurgeAppTask.execute_tasks): runs SQL, may raise')
+    w.stub('TaskClass.prepare_tasks', params={'self': K.Ref('TaskClass'), 'evolver': K.Ref('Evolver'),
+                                              'tasks': K.Seq(K.Ref('BaseEvolutionTask')), 'hinted': K.Bool},
+           may_raise=['Exception'], note='prepare chain: generates SQL, executes none (C12 effect obligation)')
+    w.stub('DatabaseState.rescan_tables', params={'self': K.Ref('DatabaseState')}, may_raise=['Exception'],
+           note='introspection queries only')
+    w.stub('Evolver._prepare_tasks', params={'self': K.Ref('Evolver')}, may_raise=['Exception'],
+           modifies=['Evolver._tasks_prepared'], ensures=['self._tasks_by_class == old(self._tasks_by_class)'] if False else [],
+           note='prepares queued tasks; executes no SQL')
+    w.stub('Version.__init__', params={'self': K.Ref('Version'), 'signature': K.Atom('ProjectSig')})
+    w.stub('Version.save', params={'self': K.Ref('Version'), 'using': K.Str}, may_raise=['Exception'],
+           effects=['saved = saved + 1'], note='ORM save of the project version row')
+    w.stub('bulk_create_evolutions', params={'using': K.Str, 'rows': K.Seq(ROW)}, may_raise=['Exception'],
+           effects=['recorded = recorded + rows'],
+           note='Evolution.objects.using(db).bulk_create(rows); assumed atomic (nothing written when it raises)')
+    w.contract(
+        'Evolver._save_project_sig', module=EVOLVER, serves=['C07', 'C17'],
+        params={'self': K.Ref('Evolver'), 'new_evolutions': K.Seq(ROW)},
+        raises={'EvolutionExecutionError': True},
+        modifies=['Evolver.version', 'EvolutionRow.version', 'saved', 'recorded'],
+        abstract={'Evolution.objects.using(self.database_name).bulk_create(':
+                  ['bulk_create_evolutions(self.database_name, new_evolutions)']},
+        invariants={1: LoopInv('for evolution in new_evolutions:', index='i',
+                               clauses=['saved == old(saved) + 1', 'recorded == old(recorded)',
+                                        'self.version is not None', 'version is some(self.version)',
+                                        'forall(range(i), lambda a: sel(new_evolutions, a).version is version)'])},
+        ensures=['saved == old(saved) + 1',
+                 # every row is recorded once, attached to the version saved by this run
+                 'len(recorded) == len(old(recorded)) + len(new_evolutions)',
+                 'forall(range(len(new_evolutions)), lambda a: sel(recorded, len(old(recorded)) + a) is sel(new_evolutions, a))',
+                 'forall(range(len(new_evolutions)), lambda a: sel(new_evolutions, a).version is self.version)',
+                 'self.version is not None'],
+        ensures_exc=['recorded == old(recorded)', 'saved <= old(saved) + 1'])
+    w.contract(
+        'Evolver.evolve', module=EVOLVER, serves=['C07', 'C17'],
+        params={'self': K.Ref('Evolver')},
+        requires=['life == IDLE', 'saved == 0', 'len(recorded) == 0', 'not exec_failed', 'not exec_after_save'],
+        locals={'new_evolutions': K.Seq(ROW)},
+        raises={'EvolutionException': True, 'Exception': True},
+        invariants={
+            1: LoopInv('for task_cls, tasks in six.iteritems(self._tasks_by_class):', index='ci',
+                       clauses=['life == EVOLVING', 'saved == 0', 'len(recorded) == 0', 'not exec_failed',
+                                'not exec_after_save', 'not self.evolved',
+                                'self._tasks_by_class == old(self._tasks_by_class)' if False else 'True']),
+            2: LoopInv('for task in tasks:', index='ti',
+                       clauses=['life == EVOLVING', 'saved == 0', 'len(recorded) == 0', 'not exec_failed',
+                                'not exec_after_save', 'not self.evolved']),
+        },
+        ensures=[
+            # normal return <=> evolved emitted last, after exactly one save
+            'life == DONE', 'self.evolved', 'saved == 1', 'not exec_after_save'],
+        ensures_exc=[
+            # evolving at most once; every evolving answered by exactly one evolving_failed on failure
+            'life == IDLE or life == FAILED',
+            'implies(not old(self.evolved), not self.evolved)',
+            # a failing task means nothing was saved or recorded
+            'implies(exec_failed, saved == 0 and len(recorded) == 0)',
+            'implies(life == IDLE, saved == 0 and len(recorded) == 0)'])
+
+    # ---- task execution: error annotation + paired signals -----------------------------------------
+    w.ghost_var('sig_log', K.Seq(K.Tuple(K.Int, K.Ref('BaseEvolutionTask'))))   # (signal code, task) in emission order
+    for n, v in dict(S_CREATING=1, S_CREATED=2, S_APPLYING=3, S_APPLIED=4).items():
+        w.consts[n] = v
+    w.ghost_var('applying_payload', K.Seq(ROW))
+    w.ghost_var('run_sql_arg', K.Seq(SQL))
+    w.ghost_var('run_sql_calls', K.Int)
+    w.stub('sig.creating_models', params={'sender': K.Ref('Evolver'), 'app_label': K.Str,
+                                          'model_names': K.Atom('Names')},
+           effects=['creating_n = creating_n + 1', 'creating_log = creating_log + [(app_label, model_names)]'])
+    w.stub('sig.created_models', params={'sender': K.Ref('Evolver'), 'app_label': K.Str,
+                                         'model_names': K.Atom('Names')},
+           effects=['created_n = created_n + 1', 'created_log = created_log + [(app_label, model_names)]'])
+    w.stub('sig.applying_evolution', params={'sender': K.Ref('Evolver'), 'task': K.Ref('BaseEvolutionTask'),
+                                             'evolutions': K.Seq(ROW)},
+           effects=['applying_n = applying_n + 1', 'applying_payload = evolutions'])
+    w.stub('sig.applied_evolution', params={'sender': K.Ref('Evolver'), 'task': K.Ref('BaseEvolutionTask'),
+                                            'evolutions': K.Seq(ROW)},
+           effects=['applied_n = applied_n + 1', 'applied_ok = applied_ok and evolutions == applying_payload'])
+    for g in ('creating_n', 'created_n', 'applying_n', 'applied_n'):
+        w.ghost_var(g, K.Int)
+    w.ghost_var('applied_ok', K.Bool)
+    w.ghost_var('creating_log', K.Seq(K.Tuple(K.Str, K.Atom('Names'))))
+    w.ghost_var('created_log', K.Seq(K.Tuple(K.Str, K.Atom('Names'))))
+    w.externals.update({'creating_models.send': 'sig.creating_models', 'created_models.send': 'sig.created_models',
+                        'applying_evolution.send': 'sig.applying_evolution',
+                        'applied_evolution.send': 'sig.applied_evolution'})
+    add_task_contracts(w, ROW)
+    add_signal_glue(w)
+
+
+def add_signal_glue(w):
+    """C17: migration progress -> signals, and the process-global evolve lock."""
+    MIG = 'django_evolution/utils/migrations.py'
+    MGMT = 'django_evolution/management/__init__.py'
+    w.module_names |= {'applying_migration', 'applied_migration'}
+    w.cls('MigrationExecutor', {'_signal_sender': K.Atom('Sender')}, module=MIG)
+    w.ghost_var('mig_applying', K.Seq(K.Opt(K.Atom('Migration'))))
+    w.ghost_var('mig_applied', K.Seq(K.Opt(K.Atom('Migration'))))
+    w.stub('sig.applying_migration', params={'sender': K.Atom('Sender'), 'migration': K.Opt(K.Atom('Migration'))},
+           effects=['mig_applying = mig_applying + [migration]'])
+    w.stub('sig.applied_migration', params={'sender': K.Atom('Sender'), 'migration': K.Opt(K.Atom('Migration'))},
+           effects=['mig_applied = mig_applied + [migration]'])
+    w.externals.update({'applying_migration.send': 'sig.applying_migration',
+                        'applied_migration.send': 'sig.applied_migration'})
+    w.contract(
+        'MigrationExecutor._on_progress', module=MIG, serves=['C17'],
+        params={'self': K.Ref('MigrationExecutor'), 'action': K.Str, 'migration': K.Opt(K.Atom('Migration')),
+                'args': None, 'kwargs': None}, vararg='args', kwarg='kwargs',
+        defaults={'migration': None},
+        ensures=[
+            # Django reports apply_start / apply_success around each migration: each becomes exactly one signal
+            "implies(action == 'apply_start', len(mig_applying) == len(old(mig_applying)) + 1 and "
+            "        sel(mig_applying, len(old(mig_applying))) == migration and mig_applied == old(mig_applied))",
+            "implies(action == 'apply_success', len(mig_applied) == len(old(mig_applied)) + 1 and "
+            "        sel(mig_applied, len(old(mig_applied))) == migration and mig_applying == old(mig_applying))",
+            "implies(action != 'apply_start' and action != 'apply_success', "
+            "        mig_applied == old(mig_applied) and mig_applying == old(mig_applying))"])
+    w.ghost_var('_evolve_lock', K.Int)
+    w.contract('_on_evolving', module=MGMT, serves=['C17'], params={'kwargs': None}, kwarg='kwargs',
+               ensures=['_evolve_lock == old(_evolve_lock) + 1'])
+    w.contract('_on_evolving_done', module=MGMT, serves=['C17'], params={'kwargs': None}, kwarg='kwargs',
+               ensures=['_evolve_lock == old(_evolve_lock) - 1'])
+
+
+def add_task_contracts(w, ROW):
+    RUNPRE = ["sql_executor is not None",
+              "iff(some(sql_executor)._latest_transaction is not None, tx == INTX)", "tx != TXERROR",
+              "some(sql_executor)._cursor is not None", "some(sql_executor)._evolver_backend is not None",
+              "not failed", "implies(tx == INTX, tx_db == some(sql_executor)._database)"]
+    ERRPOST = ["raised('EvolutionExecutionError') or raised('AssertionError')",
+               # the reported error identifies the failing statement
+               "implies(raised('EvolutionExecutionError'), has_exc_attr('last_sql_statement'))",
+               "implies(raised('EvolutionExecutionError') and failed, "
+               "        exc_attr('last_sql_statement', failed_stmt) == (failed_stmt[0], failed_stmt[1]))"]
+    w.contract(
+        'EvolveAppTask._apply_deferred_sql', module=TASK, serves=['C07'],
+        params={'cls': None, 'sql_executor': K.Opt(K.Ref('SQLExecutor')), 'evolver': K.Ref('Evolver'),
+                'sql': K.Seq(SQL)},
+        returns=K.Seq(K.Str), requires=RUNPRE[1:],
+        raises={'EvolutionExecutionError': True, 'AssertionError': True},
+        ensures=['not failed'], ensures_exc=ERRPOST)
+    w.contract(
+        'EvolveAppTask._create_models', module=TASK, serves=['C07', 'C17'],
+        params={'cls': None, 'sql_executor': K.Opt(K.Ref('SQLExecutor')), 'evolver': K.Ref('Evolver'),
+                'tasks': K.Seq(K.Ref('EvolveAppTask')), 'sql': K.Seq(SQL)},
+        returns=K.Seq(K.Str), requires=RUNPRE[1:],
+        raises={'EvolutionExecutionError': True, 'AssertionError': True},
+        invariants={
+            1: LoopInv('for task in tasks:', index='i', clauses=[
+                'creating_n == old(creating_n) + i', 'created_n == old(created_n)',
+                'len(creating_log) == len(old(creating_log)) + i',
+                'forall(range(len(old(creating_log))), lambda a: sel(creating_log, a) == sel(old(creating_log), a))',
+                'forall(range(i), lambda a: sel(creating_log, len(old(creating_log)) + a) == '
+                '       (sel(tasks, a).app_label, sel(tasks, a).new_model_names))',
+                'not failed', 'tx == old(tx)']),
+            2: LoopInv('for task in tasks:', index='j', clauses=[
+                'creating_n == old(creating_n) + len(tasks)', 'created_n == old(created_n) + j',
+                'len(created_log) == len(old(created_log)) + j',
+                'forall(range(j), lambda a: sel(created_log, len(old(created_log)) + a) == '
+                '       (sel(tasks, a).app_label, sel(tasks, a).new_model_names))',
+                'not failed']),
+        },
+        ensures=[
+            # every creating_models is answered by created_models carrying the same app/model names
+            'creating_n == old(creating_n) + len(tasks)', 'created_n == old(created_n) + len(tasks)',
+            'forall(range(len(tasks)), lambda a: sel(creating_log, len(old(creating_log)) + a) == '
+            '       (sel(tasks, a).app_label, sel(tasks, a).new_model_names))',
+            'forall(range(len(tasks)), lambda a: sel(created_log, len(old(created_log)) + a) == '
+            '       (sel(tasks, a).app_label, sel(tasks, a).new_model_names))',
+            'not failed'],
+        ensures_exc=ERRPOST + ['created_n == old(created_n)'])
+    w.contract(
+        'EvolveAppTask.execute', module=TASK, serves=['C07', 'C17'],
+        params={'self': K.Ref('EvolveAppTask'), 'cursor': K.Opt(K.Atom('LegacyCursor')),
+                'sql_executor': K.Opt(K.Ref('SQLExecutor')), 'sql': K.Opt(K.Seq(SQL)),
+                'evolutions': K.Opt(K.Seq(ROW)), 'create_models_now': K.Bool},
+        defaults={'cursor': None, 'sql_executor': None, 'sql': None, 'evolutions': None,
+                  'create_models_now': False},
+        requires=RUNPRE[1:] + ['applied_ok'],
+        raises={'EvolutionExecutionError': True, 'AssertionError': True},
+        ensures=[
+            'applying_n - old(applying_n) == applied_n - old(applied_n)', 'applying_n <= old(applying_n) + 1',
+            'applied_ok',
+            # the signal carries the evolutions the caller named for this SQL (or the task's own list)
+            'implies(applying_n > old(applying_n) and evolutions is not None, applying_payload == some(evolutions))',
+            'implies(applying_n > old(applying_n) and evolutions is None, applying_payload == old(self.new_evolutions))',
+            'not failed'],
+        ensures_exc=ERRPOST + ['applied_n == old(applied_n)', 'applying_n <= old(applying_n) + 1'])
+    w.cls('PurgeAppTask', {'app_label': K.Str}, bases=['BaseEvolutionTask'], module=PURGE)
+    w.contract(
+        'PurgeAppTask.execute', module=PURGE, serves=['C07'],
+        params={'self': K.Ref('PurgeAppTask'), 'cursor': K.Opt(K.Atom('LegacyCursor')),
+                'sql_executor': K.Opt(K.Ref('SQLExecutor'))},
+        defaults={'cursor': None, 'sql_executor': None}, kwarg='kwargs',
+        requires=RUNPRE[1:],
+        raises={'EvolutionExecutionError': True, 'AssertionError': True},
+        ensures=['not failed'], ensures_exc=ERRPOST)
+    w.contracts['PurgeAppTask.execute'].params['kwargs'] = None
 
 
 # ------------------------------------------------------------------------------ replay adapters
@@ -244,3 +487,12 @@ def replay_new_transaction(label, inputs):
         ex.__exit__(None, None, None)
     return {'reproduced': not in_multi, 'db_multi_in_atomic_block': in_multi,
             'default_in_atomic_block': in_default}
+
+
+def syn_lock_receivers():
+    from pyvc import extract
+    a = extract.find('django_evolution/management/__init__.py', '_on_evolving').decorators
+    b = extract.find('django_evolution/management/__init__.py', '_on_evolving_done').decorators
+    ok = a == ['receiver(evolving)'] and b in (['receiver([evolved, evolving_failed])'],
+                                                ['receiver([evolving_failed, evolved])'])
+    return ok, 'decorators: %r / %r' % (a, b)
